@@ -143,7 +143,8 @@ void _ZN7QStringC1EPK5QChari(char *self, char *p, uint32_t n) { if (!p) { *(QAD*
   QAD *src = blk16((uint16_t*)p, n); if (src && src->f1 == n) { *(QAD**)self = qad_ref(src); return; }
   *(QAD**)self = qs_from((uint16_t*)p, n); }
 void _ZN7QStringC1Ei5QChar(char *self, uint32_t n, uint16_t c) { if ((int32_t)n < 0) n = 0; QAD *d = qs_new(n, n); vpl_fill16(d, 0, c, n, n); *(QAD**)self = d; }
-void _ZN7QStringC1EiN2Qt14InitializationE(char *self, uint32_t n, uint32_t init) { *(QAD**)self = qs_new(n, n); }
+static QAD *vp_qs_wr;
+void _ZN7QStringC1EiN2Qt14InitializationE(char *self, uint32_t n, uint32_t init) { QAD *d = qs_new(n, n); ((struct qs*)d)->hint = QS_CAP; *(QAD**)self = d; vp_qs_wr = d; /* QStringBuilder::convertTo fills it through constData() */ }
 void _ZN7QStringC1E5QChar(char *self, uint16_t c) { QAD *d = qs_new(1, 1); SD(d)[0] = c; *(QAD**)self = d; }
 char* _ZN7QStringaSERKS_(char *self, char *o) { QAD *n = qad_ref(*(QAD**)o); qad_deref(*(QAD**)self); *(QAD**)self = n; return self; }
 char* _ZN7QStringaSE5QChar(char *self, uint16_t c) { QAD *d = qs_new(1, 1); SD(d)[0] = c; *(QAD**)self = d; return self; }
@@ -223,7 +224,6 @@ void _ZN7QString6resizeEi(char *self, uint32_t n) { QAD *d = *(QAD**)self; if ((
   QAD *nd = qs_new(n, n > qs_hint(d) ? n : qs_hint(d)); vpl_copy16(nd, 0, qs_chars(d), umin(n, d->f1), qs_hint(d)); qad_deref(d); *(QAD**)self = nd; }
 /* vp_qs_wr: the block most recently made writable (QString::data()/detach()/reserve() all come through reallocData for model
    blocks because their data offset differs from sizeof(QStringData)); the QStringBuilder leaf models of C20 store through it */
-static QAD *vp_qs_wr;
 void _ZN7QString11reallocDataEjb(char *self, uint32_t alloc, uint8_t grow) { QAD *d = *(QAD**)self; ASSERT(alloc <= QS_CAP + 1, "QString capacity of the model exceeded"); if (REF(d) == 1 && VP_BLK_DYN(d)) { vp_qs_wr = d; return; }
   ASSERT(!numS(d).isnum, "detach of an abstract number string"); QAD *nd = qs_from(qs_chars(d), d->f1); ((struct qs*)nd)->hint = QS_CAP; qad_deref(d); *(QAD**)self = nd; vp_qs_wr = nd; }
 /* C20: an unshared model block is appended to in place (Qt does the same when the capacity suffices); otherwise a new block */
